@@ -22,6 +22,18 @@ CHECKS = {
          'process_request to any reachable read passes a store; exhaustive over all 45 reachable methods incl. decorator '
          'wrappers. Decides the re-initialisation mechanism on all paths; value equality of responses is not decided.',
          'Trusted: handlers are only reached through process_request (checked by C10.R1); transient state lives in KmipEngine fields.'),
+ 'C12': ('CFG dominance/path analysis of the session loop and framing functions; loop-consumption check over all decoder loops',
+         'Exhaustive over the CFG paths of KmipSession.run/_handle_message_loop/_receive_request/_receive_bytes and the 39 decoder loops '
+         'of kmip/core: parse-before-execute, exactly one engine-built response on every normal path, exception containment, framing '
+         'arithmetic, size replacement, per-iteration input consumption. Decides these structural necessary conditions for all inputs at once; '
+         'the behaviour of individual decoders on particular byte strings is not decided.',
+         'Trusted: struct.unpack raises on short input; socket.recv(n) returns <= n bytes; Python exception semantics as modelled by the CFG.'),
+ 'C17': ('CFG dominance + reaching definitions (certificate/EKU/authenticate guards, identity provenance), effect sets for the failure path',
+         'The single process_request call is dominated by the certificate-present test, the EKU tests under the enable flag and a normally '
+         'completed authenticate(certificate, request); the identity argument has exactly one reaching definition; authenticate and the '
+         'identity helpers return only established identities; failure arms answer AUTHENTICATION_NOT_SUCCESSFUL through a side-effect-free '
+         'engine method; the two settings are plumbed unchanged from the configuration. Exhaustive over all CFG paths of the anchored functions.',
+         'Trusted: ssl/cryptography.x509 accessors, the requests library, the SLUGS service.'),
 }
 
 NOT_YET = 'check not built yet in this session (rules designed in DESIGN.md section 4); will be claimed once its check exists and is silent on the unchanged tree'
